@@ -19,7 +19,7 @@ for d in sorted(glob.glob('/verif/seeded/*/')):
     if name.endswith('-r3'):
         b=blind.get(name[:-3],'?')
         first=f"blind: {'caught' if b=='caught' else 'missed'}; official: {first}"
-    if name.endswith('-r4') or name.endswith('-r5'):
+    if name.endswith('-r4') or name.endswith('-r5') or name.endswith('-r6'):
         first=f"blind (official): {first}"
     rows.append(f"| {name} | {m.get('site','')} — {summ[:230]} | {needs[:200]} | {first} | {'; '.join(det)} |")
 print("| seed | change | needs | first evaluation | final result of the check(s) |\n|---|---|---|---|---|")
